@@ -91,7 +91,8 @@ def output_result(result, output_file, output_format, form):
     if output_format == "dimacs":
         if form != "cnf":
             print(
-                "Warning: DIMACS format is only supported for CNF form. Converting to CNF."
+                "Warning: DIMACS format is only supported for CNF form. Converting to CNF.",
+                file=sys.stderr,
             )
             result = to_cnf(result, simplify=True)
         result = convert_to_dimacs(result)
